@@ -231,4 +231,63 @@ theorem blockLine_ok (cfg : Cfg) (row : List PP) (w h i : Nat) (hlen : row.lengt
     rw [← hR.row, ← hc]
     exact ⟨_, this⟩
 
+
+/-- the tokens a block render consists of: the three pixel glyphs, NUL, and SGR sequences -/
+def _root_.TIV.Tok.isBlock : Tok → Bool
+  | .glyph .blank | .glyph .upper | .glyph .lower | .nul | .sgr0 | .fg _ | .bg _ => true
+  | _ => false
+
+theorem isBlock_glyphs (g : Glyph) (hg : ∀ c, g ≠ .ch c) (n : Nat) (split : Bool) : ∀ a ∈ glyphs g n split, a.isBlock = true := by
+  have hgb : (Tok.glyph g).isBlock = true := by cases g <;> first | rfl | exact absurd rfl (hg _)
+  unfold glyphs
+  cases split <;> intro a ha
+  · simp at ha; rw [ha.2]; exact hgb
+  · simp at ha
+    obtain ⟨l, ⟨_, rfl⟩, hl⟩ := ha
+    simp at hl; rcases hl with rfl | rfl
+    · exact hgb
+    · rfl
+
+theorem updateBuffer_block (cfg : Cfg) (cl : PP) (n : Nat) :
+    ∀ a ∈ updateBuffer cfg cl n, a.isBlock = true := by
+  intro a ha
+  unfold updateBuffer at ha
+  have hg : ∀ (g : Glyph) (n : Nat) (sp : Bool), (∀ c, g ≠ .ch c) → ∀ a ∈ glyphs g n sp, a.isBlock = true :=
+    fun g n sp h => isBlock_glyphs g h n sp
+  split at ha
+  · simp at ha; rcases ha with rfl | h; rfl; exact hg _ _ _ (by intro c; simp) a h
+  · split at ha
+    · simp at ha; rcases ha with rfl | rfl | h; rfl; rfl; exact hg _ _ _ (by intro c; simp) a h
+    · split at ha
+      · simp at ha; rcases ha with rfl | rfl | h; rfl; rfl; exact hg _ _ _ (by intro c; simp) a h
+      · simp at ha
+        rcases ha with rfl | h
+        · rfl
+        · split at h
+          · exact hg _ _ _ (by intro c; simp) a h
+          · simp at h; rcases h with rfl | h; rfl; exact hg _ _ _ (by intro c; simp) a h
+
+theorem loop_block (cfg : Cfg) (ps : List PP) : ∀ cl n, ∀ a ∈ loop cfg cl n ps, a.isBlock = true := by
+  induction ps with
+  | nil => intro cl n a ha; exact updateBuffer_block cfg cl n a ha
+  | cons p ps ih =>
+    intro cl n a ha
+    unfold loop at ha
+    split at ha
+    · rcases List.mem_append.mp ha with h | h
+      · exact updateBuffer_block cfg cl n a h
+      · exact ih _ _ a h
+    · exact ih _ _ a ha
+
+theorem line_block (cfg : Cfg) (row : List PP) : ∀ a ∈ line cfg row, a.isBlock = true := by
+  intro a ha
+  unfold line at ha
+  cases row with
+  | nil => simp at ha
+  | cons p ps =>
+    simp only at ha
+    split at ha
+    · exact loop_block cfg _ _ _ a (dropLastNul_mem _ a ha)
+    · exact loop_block cfg _ _ _ a ha
+
 end TIV.Block
